@@ -1003,6 +1003,168 @@ Proof.
   - destruct w; cbn [fwidth_bytes encode_head_w]; (constructor; [lia|apply be_bytes_ok]).
 Qed.
 
+(* ------------------------------------------------------------------ parsed items are encodable *)
+
+Lemma bytes_ok_app_inv a b : bytes_ok (a ++ b) -> bytes_ok a /\ bytes_ok b.
+Proof. intros H. apply Forall_app in H. exact H. Qed.
+
+Lemma bytes_ok_okb b : bytes_ok b -> bytes_okb b = true.
+Proof.
+  unfold bytes_okb, bytes_ok. rewrite forallb_forall, Forall_forall. intros H x Hin. apply N.ltb_lt, H, Hin.
+Qed.
+
+Lemma unbe_bound l : bytes_ok l -> forall acc k, acc < 256 ^ N.of_nat k -> unbe l acc < 256 ^ N.of_nat (k + length l).
+Proof.
+  induction 1 as [|b t Hb _ IH]; intros acc k Hacc; cbn [unbe length].
+  - rewrite Nat.add_0_r. exact Hacc.
+  - replace (k + S (length t))%nat with (S k + length t)%nat by lia. apply IH.
+    rewrite Nat2N.inj_succ, N.pow_succ_r'. nia.
+Qed.
+
+Definition arg_bound (ai : N) : N :=
+  if ai <? 24 then 24 else if ai =? 24 then 256 else if ai =? 25 then 65536
+  else if ai =? 26 then 4294967296 else two64.
+
+Lemma arg_bound_le ai : arg_bound ai <= two64.
+Proof.
+  unfold arg_bound, two64. destruct (ai <? 24); [lia|]. destruct (ai =? 24); [lia|].
+  destruct (ai =? 25); [lia|]. destruct (ai =? 26); lia.
+Qed.
+
+Lemma decode_head_bound b t m n r : bytes_ok (b :: t) ->
+  decode_head (b :: t) = Some (m, Arg n, r) -> n < arg_bound (b mod 32).
+Proof.
+  intros Hok. cbn [decode_head]. unfold arg_bound.
+  destruct (b mod 32 <? 24) eqn:E0; [intros H; injection H as _ <- _; lia|].
+  assert (P : forall k, match split_at k t with Some (p, r') => Some (b / 32, Arg (unbe p 0), r') | None => None end
+                        = Some (m, Arg n, r) -> n < 256 ^ N.of_nat k).
+  { intros k. destruct (split_at k t) as [[p r']|] eqn:E; [|discriminate].
+    intros H; injection H as _ <- _. apply split_at_ok in E as [-> Hl].
+    inversion Hok as [|? ? _ Ht]. apply bytes_ok_app_inv in Ht as [Hp _].
+    pose proof (unbe_bound p Hp 0 O ltac:(cbn; lia)) as B. rewrite Hl in B. exact B. }
+  destruct (b mod 32 =? 24); [intros H; apply P in H; exact H|].
+  destruct (b mod 32 =? 25); [intros H; apply P in H; exact H|].
+  destruct (b mod 32 =? 26); [intros H; apply P in H; exact H|].
+  destruct (b mod 32 =? 27); [intros H; apply P in H; exact H|].
+  destruct (b mod 32 =? 31); discriminate.
+Qed.
+
+Lemma decode_head_rest_ok bs m a r : bytes_ok bs -> decode_head bs = Some (m, a, r) -> bytes_ok r.
+Proof. intros Hok H. apply decode_head_suffix in H as [pre [-> _]]. apply bytes_ok_app_inv in Hok. tauto. Qed.
+
+Lemma parse_n_all {A} (Q : A -> Prop) (p : parser A) : psuffix p ->
+  (forall bs x r, bytes_ok bs -> p bs = Ok (x, r) -> Q x) ->
+  forall k bs xs r, bytes_ok bs -> parse_n p k bs = Ok (xs, r) -> Forall Q xs.
+Proof.
+  intros Hp HQ. induction k as [|k IH]; intros bs xs r Hok H; cbn [parse_n] in H.
+  - injection H as <- _. constructor.
+  - apply bind_ok in H as [[x r1] [H1 H]]. apply bind_ok in H as [[xs' r2] [H2 H]]. injection H as <- _.
+    constructor; [apply (HQ _ _ _ Hok H1)|]. apply Hp in H1 as [pre [-> _]].
+    apply bytes_ok_app_inv in Hok as [_ Hok]. apply (IH _ _ _ Hok H2).
+Qed.
+
+Lemma parse_until_break_all {A} (Q : A -> Prop) (p : parser A) : psuffix p ->
+  (forall bs x r, bytes_ok bs -> p bs = Ok (x, r) -> Q x) ->
+  forall k bs xs r, bytes_ok bs -> parse_until_break p k bs = Ok (xs, r) -> Forall Q xs.
+Proof.
+  intros Hp HQ. induction k as [|k IH]; intros [|b t] xs r Hok H; cbn [parse_until_break] in H;
+    try discriminate; destruct (b =? 255); try discriminate; try (injection H as <- _; constructor).
+  apply bind_ok in H as [[x r1] [H1 H]]. apply bind_ok in H as [[xs' r2] [H2 H]]. injection H as <- _.
+  constructor; [apply (HQ _ _ _ Hok H1)|]. apply Hp in H1 as [pre [E _]]. rewrite E in Hok.
+  apply bytes_ok_app_inv in Hok as [_ Hok]. apply (IH _ _ _ Hok H2).
+Qed.
+
+Lemma take_bytes_chunk_ok n bs s r : bytes_ok bs -> n < two64 -> take_bytes n bs = Ok (s, r) -> chunk_ok s = true.
+Proof.
+  intros Hok Hn H. apply take_bytes_ok in H as [-> Hl]. apply bytes_ok_app_inv in Hok as [Hs _].
+  unfold chunk_ok. rewrite (bytes_ok_okb _ Hs), Hl. cbn [andb]. apply N.ltb_lt, Hn.
+Qed.
+
+Lemma parse_chunk_ok m bs c r : bytes_ok bs -> parse_chunk m bs = Ok (c, r) -> chunk_ok c = true.
+Proof.
+  intros Hok H. unfold parse_chunk in H.
+  destruct (decode_head bs) as [[[m' [n|]] r0]|] eqn:Hd; try discriminate.
+  destruct (m' =? m); [|discriminate].
+  pose proof (decode_head_rest_ok _ _ _ _ Hok Hd) as Hr.
+  destruct bs as [|b t]; [discriminate|]. pose proof (decode_head_bound _ _ _ _ _ Hok Hd) as Hb.
+  pose proof (arg_bound_le (b mod 32)). apply (take_bytes_chunk_ok n r0 c r Hr); [lia|exact H].
+Qed.
+
+Lemma Forall_forallb {A} (f : A -> bool) xs : Forall (fun x => f x = true) xs -> forallb f xs = true.
+Proof. intros H. apply forallb_forall. apply Forall_forall. exact H. Qed.
+
+Definition pok (p : parser item) : Prop :=
+  forall bs x r, bytes_ok bs -> p bs = Ok (x, r) -> item_ok x = true.
+
+Lemma parse_body_ok p : psuffix p -> pok p -> pok (parse_body p).
+Proof.
+  intros Hp Hq bs x r Hok H. unfold parse_body in H.
+  destruct bs as [|b0 t]; [discriminate|].
+  destruct (decode_head (b0 :: t)) as [[[m a] r0]|] eqn:Hd; [|discriminate].
+  pose proof (decode_head_rest_ok _ _ _ _ Hok Hd) as Hr.
+  assert (Hn : forall n, a = Arg n -> n < arg_bound (b0 mod 32) /\ n < two64).
+  { intros n ->. pose proof (decode_head_bound _ _ _ _ _ Hok Hd). pose proof (arg_bound_le (b0 mod 32)). lia. }
+  assert (Hpair : forall bs kv r, bytes_ok bs -> parse_pair p bs = Ok (kv, r) ->
+                  (fun kv => match kv with (k, v) => item_ok k && item_ok v end = true) kv).
+  { intros bs' [k v] r' Hok' H'. unfold parse_pair in H'.
+    apply bind_ok in H' as [[k' r1] [H1 H']]. apply bind_ok in H' as [[v' r2] [H2 H']]. injection H' as <- <- _.
+    rewrite (Hq _ _ _ Hok' H1). apply Hp in H1 as [pre [-> _]]. apply bytes_ok_app_inv in Hok' as [_ Hok'].
+    rewrite (Hq _ _ _ Hok' H2). reflexivity. }
+  unfold parse_after in H.
+  destruct (major_of m) as [[]|]; destruct a as [n|]; try discriminate;
+    try (destruct (Hn n eq_refl) as [Hb Hn64]).
+  - injection H as <- _. cbn [item_ok]. apply N.ltb_lt, Hn64.
+  - injection H as <- _. cbn [item_ok]. apply N.ltb_lt, Hn64.
+  - apply bind_ok in H as [[s r1] [H1 H]]. injection H as <- _. cbn [item_ok].
+    apply (take_bytes_chunk_ok _ _ _ _ Hr Hn64 H1).
+  - apply bind_ok in H as [[s r1] [H1 H]]. injection H as <- _. cbn [item_ok].
+    apply Forall_forallb.
+    apply (parse_until_break_all _ _ (parse_chunk_suffix 2) (parse_chunk_ok 2) _ _ _ _ Hr H1).
+  - apply bind_ok in H as [[s r1] [H1 H]]. injection H as <- _. cbn [item_ok].
+    apply (take_bytes_chunk_ok _ _ _ _ Hr Hn64 H1).
+  - apply bind_ok in H as [[s r1] [H1 H]]. injection H as <- _. cbn [item_ok].
+    apply Forall_forallb.
+    apply (parse_until_break_all _ _ (parse_chunk_suffix 3) (parse_chunk_ok 3) _ _ _ _ Hr H1).
+  - destruct (n <=? len r0) eqn:G; [|discriminate].
+    apply bind_ok in H as [[s r1] [H1 H]]. injection H as <- _. cbn [item_ok].
+    apply andb_true_iff. split.
+    + apply (parse_n_suffix _ Hp) in H1 as [_ [_ [Hl _]]]. unfold len. rewrite Hl, N2Nat.id. apply N.ltb_lt, Hn64.
+    + apply Forall_forallb. apply (parse_n_all _ _ Hp Hq _ _ _ _ Hr H1).
+  - apply bind_ok in H as [[s r1] [H1 H]]. injection H as <- _. cbn [item_ok andb].
+    apply Forall_forallb. apply (parse_until_break_all _ _ Hp Hq _ _ _ _ Hr H1).
+  - destruct (n <=? len r0) eqn:G; [|discriminate].
+    apply bind_ok in H as [[s r1] [H1 H]]. injection H as <- _. cbn [item_ok].
+    apply andb_true_iff. split.
+    + apply (parse_n_suffix _ (parse_pair_suffix _ Hp)) in H1 as [_ [_ [Hl _]]].
+      unfold len. rewrite Hl, N2Nat.id. apply N.ltb_lt, Hn64.
+    + apply Forall_forallb. apply (parse_n_all _ _ (parse_pair_suffix _ Hp) Hpair _ _ _ _ Hr H1).
+  - apply bind_ok in H as [[s r1] [H1 H]]. injection H as <- _. cbn [item_ok andb].
+    apply Forall_forallb. apply (parse_until_break_all _ _ (parse_pair_suffix _ Hp) Hpair _ _ _ _ Hr H1).
+  - apply bind_ok in H as [[s r1] [H1 H]]. injection H as <- _. cbn [item_ok].
+    rewrite (Hq _ _ _ Hr H1). apply andb_true_iff. split; [apply N.ltb_lt, Hn64|reflexivity].
+  - cbv zeta in H. unfold arg_bound in Hb.
+    destruct (b0 mod 32 <? 24); [injection H as <- _; cbn [item_ok]; lia|].
+    destruct (b0 mod 32 =? 24).
+    { destruct (n <? 32) eqn:E3; [discriminate|]. injection H as <- _; cbn [item_ok]; lia. }
+    destruct (b0 mod 32 =? 25); [injection H as <- _; cbn [item_ok]; lia|].
+    destruct (b0 mod 32 =? 26); injection H as <- _; cbn [item_ok]; lia.
+Qed.
+
+(* every item parsed from a string of bytes is encodable; with parse_item_encode: parsing the
+   shortest-head re-encoding of a parsed item gives the same item back *)
+Theorem parse_item_ok f bs it rest : bytes_ok bs -> parse_item f bs = Ok (it, rest) -> item_ok it = true.
+Proof.
+  revert bs it rest. induction f as [|f IH]; [discriminate|].
+  exact (parse_body_ok _ (parse_item_suffix f) IH).
+Qed.
+
+Corollary parse_exact_item_ok bs it : bytes_ok bs -> parse_exact bs = Ok it -> item_ok it = true.
+Proof. intros Hok H. apply parse_exact_ok in H. apply (parse_item_ok _ _ _ _ Hok H). Qed.
+
+Corollary parse_exact_reencode bs it : bytes_ok bs -> parse_exact bs = Ok it ->
+  parse_exact (encode_item it) = Ok it.
+Proof. intros Hok H. apply parse_exact_encode, (parse_exact_item_ok _ _ Hok H). Qed.
+
 (* ------------------------------------------------------------------ smoke tests *)
 
 (* indefinite array [1, [2, 3]] : 9f 01 82 02 03 ff *)
@@ -1089,3 +1251,4 @@ Print Assumptions parse_item_prefix_free.
 Print Assumptions skip_item_slice.
 Print Assumptions canon_bytes3_encode.
 Print Assumptions encode_item_bytes_ok.
+Print Assumptions parse_item_ok.
